@@ -601,4 +601,138 @@ theorem new_spec [Inhabited α] (h : Heap α) (n : Nat) (v : α) :
     · rw [i7 _ (by omega), hh0, vl_push, if_pos hr]
     · exact i8 x hx
 
+/-! ### the global invariant: `next` and `prev` are mutually inverse permutations -/
+
+/-- `next` and `prev` are mutually inverse permutations of the allocated nodes -/
+def WF (h : Heap α) : Prop :=
+  ∀ x, x < h.size → nx h x < h.size ∧ pv h x < h.size ∧ pv h (nx h x) = x ∧ nx h (pv h x) = x
+
+theorem wf_empty : WF (#[] : Heap α) := by intro x hx; simp at hx
+
+theorem wf_setVal {h : Heap α} (hw : WF h) (i : Nat) (v : α) : WF (setVal h i v) := by
+  intro x hx; simpa using hw x (by simpa using hx)
+
+theorem wf_link {h : Heap α} (hw : WF h) {r : Nat} (hr : r < h.size) (s : Option Nat)
+    (hs : ∀ s', s = some s' → s' < h.size) : WF (link h r s).1 := by
+  cases s with
+  | none => exact hw
+  | some s =>
+    have hs := hs s rfl
+    intro x hx
+    rw [size_link] at hx ⊢
+    obtain ⟨rn, rp, rpn, rnp⟩ := hw r hr
+    obtain ⟨sn, sp, spn, snp⟩ := hw s hs
+    have NX := nx_link h r s hr sp
+    have PV := pv_link h r s hs rn
+    obtain ⟨xn, xp, xpn, xnp⟩ := hw x hx
+    simp only [NX, PV]
+    grind
+
+theorem iter_lt {f : Nat → Nat} {n : Nat} (hf : ∀ x, x < n → f x < n) (k r : Nat) (hr : r < n) : iter f k r < n := by
+  induction k generalizing r with
+  | zero => exact hr
+  | succ k ih => exact ih (f r) (hf r hr)
+
+theorem wf_move_lt {h : Heap α} (hw : WF h) {r : Nat} (hr : r < h.size) (n : Int) : move h r n < h.size := by
+  unfold move
+  split
+  · exact iter_lt (fun x hx => (hw x hx).2.1) _ r hr
+  · exact iter_lt (fun x hx => (hw x hx).1) _ r hr
+
+theorem wf_unlink {h : Heap α} (hw : WF h) {r : Nat} (hr : r < h.size) (n : Int) : WF (unlink h r n).1 := by
+  unfold unlink
+  split
+  · exact hw
+  · exact wf_link hw hr _ (fun s' hs' => by cases hs'; exact wf_move_lt hw hr _)
+
+theorem wf_alloc {h : Heap α} (hw : WF h) (v : α) : WF (alloc h v).1 := by
+  intro x hx
+  simp only [alloc, Array.size_push] at hx ⊢
+  simp only [nx_push, pv_push]
+  by_cases he : x = h.size
+  · simp [he]
+  · have hx' : x < h.size := by omega
+    obtain ⟨a, b, c, d⟩ := hw x hx'
+    simp only [he, if_false]
+    have : nx h x ≠ h.size := by omega
+    have : pv h x ≠ h.size := by omega
+    simp [*]; omega
+
+theorem links_next {h : Heap α} (a : Nat) (xs : List Nat) (hl : Links h (a :: xs)) :
+    ∀ x ∈ (a :: xs).dropLast, nx h x ∈ xs ∧ pv h (nx h x) = x := by
+  induction xs generalizing a with
+  | nil => simp
+  | cons y ys ih =>
+    obtain ⟨h1, h2, h3⟩ := hl
+    intro x hx
+    simp only [List.dropLast_cons_cons, List.mem_cons] at hx
+    rcases hx with rfl | hx
+    · rw [h1]; exact ⟨by simp, h2⟩
+    · obtain ⟨i1, i2⟩ := ih y h3 x hx
+      exact ⟨List.mem_cons_of_mem _ i1, i2⟩
+
+theorem links_prev {h : Heap α} (a : Nat) (xs : List Nat) (hl : Links h (a :: xs)) :
+    ∀ y ∈ xs, pv h y ∈ a :: xs ∧ nx h (pv h y) = y := by
+  induction xs generalizing a with
+  | nil => simp
+  | cons y0 ys ih =>
+    obtain ⟨h1, h2, h3⟩ := hl
+    intro y hy
+    rcases List.mem_cons.mp hy with rfl | hy
+    · rw [h2]; exact ⟨by simp, h1⟩
+    · obtain ⟨i1, i2⟩ := ih y0 h3 y hy
+      exact ⟨List.mem_cons_of_mem _ i1, i2⟩
+
+theorem mem_dropLast_or_last (a : Nat) (xs : List Nat) : ∀ x ∈ a :: xs, x ∈ (a :: xs).dropLast ∨ x = lastOf a xs := by
+  induction xs generalizing a with
+  | nil => simp
+  | cons y ys ih =>
+    intro x hx
+    rcases List.mem_cons.mp hx with rfl | hx
+    · left; simp
+    · rcases ih y x hx with h | h
+      · left; simp [h]
+      · right; simpa using h
+
+/-- within a well-formed ring `next` and `prev` stay inside and are inverse to each other -/
+theorem IsRing.inverse {h : Heap α} {l : List Nat} (hr : IsRing h l) :
+    ∀ x ∈ l, nx h x ∈ l ∧ pv h x ∈ l ∧ pv h (nx h x) = x ∧ nx h (pv h x) = x := by
+  cases l with
+  | nil => exact hr.elim
+  | cons a xs =>
+    obtain ⟨l, c, d, nd, b⟩ := hr
+    intro x hx
+    have hn : nx h x ∈ a :: xs ∧ pv h (nx h x) = x := by
+      rcases mem_dropLast_or_last a xs x hx with h1 | h1
+      · obtain ⟨i1, i2⟩ := links_next a xs l x h1
+        exact ⟨List.mem_cons_of_mem _ i1, i2⟩
+      · subst h1; rw [c]; exact ⟨by simp, d⟩
+    have hp : pv h x ∈ a :: xs ∧ nx h (pv h x) = x := by
+      rcases List.mem_cons.mp hx with rfl | h1
+      · rw [d]; exact ⟨lastOf_mem _ _, c⟩
+      · exact links_prev a xs l x h1
+    exact ⟨hn.1, hp.1, hn.2, hp.2⟩
+
+theorem wf_new [Inhabited α] {h : Heap α} (hw : WF h) (n : Int) (v : α) : WF (Ring.new h n v).1 := by
+  by_cases hn : n ≤ 0
+  · simp only [Ring.new, hn, if_true]; exact hw
+  · obtain ⟨k, hk⟩ : ∃ k : Nat, n = ((k + 1 : Nat) : Int) := ⟨(n - 1).toNat, by omega⟩
+    subst hk
+    obtain ⟨_, e1, hF, frame, _⟩ := new_spec h k v
+    intro x hx
+    rw [e1] at hx ⊢
+    by_cases hxo : x < h.size
+    · obtain ⟨a, b, c, d⟩ := hw x hxo
+      obtain ⟨f1, f2, _⟩ := frame x hxo
+      rw [f1, f2]
+      refine ⟨by omega, by omega, ?_, ?_⟩
+      · rw [(frame _ a).2.1]; exact c
+      · rw [(frame _ b).1]; exact d
+    · have hm : x ∈ List.range' h.size (k + 1) := List.mem_range'_1.mpr ⟨by omega, by omega⟩
+      obtain ⟨i1, i2, i3, i4⟩ := hF.inverse x hm
+      have b1 := hF.mem_lt i1
+      have b2 := hF.mem_lt i2
+      rw [e1] at b1 b2
+      exact ⟨b1, b2, i3, i4⟩
+
 end Kit.Ring
